@@ -5,3 +5,7 @@ package federation
 // verifEventApplied marks the point where a peer's event has passed duplicate suppression and is about to be applied.
 // It does nothing (and is inlined away) in normal builds.
 func verifEventApplied(local string, from string, ev *Event) {}
+
+// verifYield marks a point where a verification build may perturb the schedule.
+// It does nothing (and is inlined away) in normal builds.
+func verifYield(site string) {}
